@@ -86,10 +86,10 @@ class Files(object):
         self.dir = tlc.scratch('c17_')
         self.path = os.path.join(self.dir, 'm.fcs')
 
-    def load(self, pairs, events, version, bits=16):
+    def load(self, pairs, events, version, bits=16, datatype='I'):
         import re
         D = len(events[0])
-        data = fcsgen.pack_events(events, [bits] * D, False, 'I')
+        data = fcsgen.pack_events(events, [{'I': bits, 'F': 32, 'D': 64}[datatype]] * D, False, datatype)
         # in FCS3.x the optional keywords may live in the supplemental TEXT segment, which may or may not start with the
         # delimiter: every third file keeps them in the primary segment, the others move them (led / bare)
         self.n = getattr(self, 'n', 0) + 1
@@ -120,10 +120,18 @@ def timing_case(chk, F, scn, out, idx):
                      ('$ETIM', render_time(et)), ('$DATE', render_date(date, idx))):
         if val is not None:
             extra.append((key, val))
-    pairs = fcsgen.sample_pairs(3, names, [16] * D, [1024] * D, pne=['0,0'] * D, extra=extra)
+    # the numeric type of the file is a rendering dimension: integer, double and single precision.  In floating-point
+    # files the time stamps carry fractions (first + 0.75, last + 0.25): the span is half a tick short of the
+    # specification's integral one, and the expectation below is adjusted by exactly that
+    dt = ['I', 'D', 'I', 'F'][idx % 4] if D == 3 else 'I'
+    if dt != 'I':
+        ev = [[float(v) for v in r] for r in ev]
+        ev[0][2] += 0.75
+        ev[-1][2] += 0.25
+    pairs = fcsgen.sample_pairs(3, names, [{'I': 16, 'F': 32, 'D': 64}[dt]] * D, [1024] * D, pne=['0,0'] * D, extra=extra, datatype=dt)
     obs = {}
     try:
-        d = F.load(pairs, ev, 'FCS' + ver)
+        d = F.load(pairs, ev, 'FCS' + ver, datatype=dt)
     except Exception as e:  # noqa
         return {'load': 'raises:' + type(e).__name__}, 'load-raises'
     obs['time_step'] = d.time_step
@@ -147,7 +155,11 @@ def timing_case(chk, F, scn, out, idx):
         if q['k'] == 'none':
             ok = obs['acq'] is None
         elif q['k'] == 'channel':
-            ok = close(obs['acq'], q['ticks'] * q['step'][0], q['step'][1])
+            if dt == 'I':
+                ok = close(obs['acq'], q['ticks'] * q['step'][0], q['step'][1])
+            else:
+                exp = (2 * q['ticks'] - 1) * q['step'][0] / (2.0 * q['step'][1])
+                ok = isinstance(obs['acq'], float) and abs(obs['acq'] - exp) <= (1e-6 if dt == 'F' else 1e-12) * max(1.0, abs(exp))
         else:
             ok = close(obs['acq'], q['sec'] * 1000000 + q['us'], 1000000)
         if not ok:
